@@ -1947,7 +1947,9 @@ void ScriptVariable::operator/=(const ScriptVariable& value)
             throw ScriptVariableErrors::DivideByZero();
         }
 
-        (Vector)m_data.vectorValue = (Vector)m_data.vectorValue / (float)value.m_data.long64Value;
+        for (int i = 0; i < 3; ++i) {
+            m_data.vectorValue[i] /= (float)value.m_data.long64Value;
+        }
         break;
 
     case uint32_t(variableType_e::Vector + variableType_e::Float * variableType_e::Max): // ( vector ) / ( float )
